@@ -8,6 +8,7 @@
   each proof, so a change of one of those literals re-runs the proofs against the new value.
 -/
 import XMT.ClientLoopLemmas
+import XMT.TieXlateWait
 namespace XMT.Props.C19
 open XMT XMT.Work XMT.Jitter XMT.Client
 
@@ -262,5 +263,56 @@ example :
     c.WF ∧ (run c (fun _ => 0) (fun _ => .ok) 8 { now := 0 }).trace =
       [.sleep 60000000000, .connect 60000000000 false .ok, .sleep 60000000000, .connect 120000000000 false .ok,
        .sleep 60000000000, .connect 180000000000 true .ok] := by decide
+
+/-! ### The delay computation of the CURRENT source (session 3, translator part 2)
+
+`XMT.TieXlateWait.srcDelay` is the guard `s.sleep < 1`, the statements of `(*Session).wait` from
+`w := s.sleep` to the arming of the ticker as REGENERATED from c2/session.go on every run
+(`Facts.x_c2_Session_wait_delay`: Go's int64 arithmetic spelled out, PRNG call sites and field reads as
+parameters) and the ticker. `x_wait_delay_eq` proves the hand model equal to it for every int64 sleep,
+so the delay theorems hold of the regenerated function. -/
+section Src
+open XMT.TieXlateWait
+
+/-- `delay_positive_within_one_sleep` for the regenerated delay computation. -/
+theorem src_delay_positive_within_one_sleep (S : Int) (jitter : Nat) (q : Nat → Nat)
+    (hS : 0 < S) (hS2 : S < 2^63) :
+    ∃ w, srcDelay S jitter q = .sleep w ∧ 0 < w ∧ w - S ≤ S ∧ S - w ≤ S := by
+  obtain ⟨w, k, h, h0, h1, h2⟩ := delay_positive_within_one_sleep S jitter q hS hS2
+  exact ⟨w, by rw [← x_wait_delay_eq S jitter q (by omega) hS2, h], h0, h1, h2⟩
+
+/-- `delay_no_jitter` for the regenerated delay computation. -/
+theorem src_delay_no_jitter (S : Int) (jitter : Nat) (q : Nat → Nat) (hS : 0 < S) (hS2 : S < 2^63)
+    (hj : jitter = 0 ∨ jitter > 100) : srcDelay S jitter q = .sleep S := by
+  rw [← x_wait_delay_eq S jitter q (by omega) hS2, delay_no_jitter S jitter q hS hj]
+
+/-- `delay_exact_below_2_62` for the regenerated delay computation. -/
+theorem src_delay_exact_below_2_62 (S : Int) (jitter : Nat) (q : Nat → Nat) (hS : 0 < S) (hS2 : S ≤ 2^62) :
+    ∃ w, srcDelay S jitter q = .sleep w ∧
+      (w = S ∨ ∃ d : Int, 0 ≤ d ∧ d < S / 1000000 ∧ (w = S + d * 1000000 ∨ w = S - d * 1000000)) ∧
+      0 < w ∧ w < 2 * S := by
+  obtain ⟨w, k, h, h1, h2, h3⟩ := delay_exact_below_2_62 S jitter q hS hS2
+  exact ⟨w, by rw [← x_wait_delay_eq S jitter q (by omega) (by omega), h], h1, h2, h3⟩
+
+/-- A non-positive sleep: the regenerated computation does not sleep either (the guard). -/
+theorem src_delay_none (S : Int) (jitter : Nat) (q : Nat → Nat) (hS : S < 1) : srcDelay S jitter q = .none := by
+  unfold srcDelay; simp [hS]
+
+/-- The PRNG helpers of package util as regenerated from util/rand.go and util/rand_fast.go are the
+functions the delay model draws with. -/
+theorem src_prng_helpers (n : Int) (r hi lo v : Nat) (hn : 0 ≤ n) :
+    Facts.x_util_FastRandN n r = fastRandN r n.toNat ∧ Facts.x_util_random_Uint64 hi lo = uint64Of hi lo ∧
+    Facts.x_util_abs64 v = abs64 v :=
+  ⟨x_util_FastRandN_eq n r hn, x_util_random_Uint64_eq hi lo, x_util_abs64_eq v⟩
+
+-- non-vacuity: the regenerated function computes (60 s, jitter 100, draw 5 ms, plus / minus; jitter 50
+-- with a percentage draw that hits; the overflow witness of fix c7eed5b falls back to the plain sleep)
+example : srcDelay 60000000000 100 (fun i => [0, 5, 0].getD i 0) = .sleep 60005000000 ∧
+    srcDelay 60000000000 100 (fun i => [0, 5, 2147483648].getD i 0) = .sleep 59995000000 ∧
+    srcDelay 60000000000 50 (fun i => [0, 0, 7, 0].getD i 0) = .sleep 60007000000 ∧
+    srcDelay 60000000000 0 (fun _ => 7) = .sleep 60000000000 ∧ srcDelay 0 100 (fun _ => 7) = .none ∧
+    Facts.x_c2_Session_wait_delay 4611686018428775808 100 (fun _ => 0) (fun _ => 4611686018426) (fun _ => 0) =
+      4611686018428775808 := by decide
+end Src
 
 end XMT.Props.C19
